@@ -239,11 +239,35 @@ func addressingKindOf(t types.Type) string {
 	return ""
 }
 
-// kindsReaching: the addressing kinds of all property-typed values that may flow into v.
+// backwardUntil is backward, but does not look behind values for which stop
+// holds (they are included, their sources are not).
+func (g *FlowGraph) backwardUntil(v ssa.Value, stop func(ssa.Value) bool) map[ssa.Value]bool {
+	seen := map[ssa.Value]bool{v: true}
+	work := []ssa.Value{v}
+	for len(work) > 0 {
+		x := work[0]
+		work = work[1:]
+		if x != v && stop(x) {
+			continue
+		}
+		for _, p := range g.pred[x] {
+			if !seen[p] {
+				seen[p] = true
+				work = append(work, p)
+			}
+		}
+	}
+	return seen
+}
+
+func isAddressingValue(x ssa.Value) bool { return addressingKindOf(x.Type()) != "" }
+
+// kindsReaching: the addressing kinds of the nearest property-typed values
+// that may flow into v (the properties the value was read from).
 func (g *FlowGraph) kindsReaching(v ssa.Value) map[string]bool {
 	out := map[string]bool{}
-	for x := range g.backward(v) {
-		if k := addressingKindOf(x.Type()); k != "" {
+	for x := range g.backwardUntil(v, isAddressingValue) {
+		if k := addressingKindOf(x.Type()); k != "" && x != v {
 			out[k] = true
 		}
 	}
